@@ -97,6 +97,7 @@ class RecvTap(object):
 
     def __init__(self, conn):
         self.accepted = []
+        self.stamps = []
         rl = conn._recordLayer
         orig = rl.recvRecord
         tap = self
@@ -107,7 +108,9 @@ class RecvTap(object):
                     yield r
                 else:
                     header, parser = r
+                    STAMP[0] += 1
                     tap.accepted.append((header.type, bytes(parser.bytes)))
+                    tap.stamps.append(STAMP[0])
                     yield r
         rl.recvRecord = recvRecord
 
